@@ -530,6 +530,14 @@ impl C33 {
                 let rt = new_rt();
                 let (store, base, inner) = mem_store(&names, true, &rt);
                 let r = catch_unwind(AssertUnwindSafe(|| rt.block_on(migrate_scheme_to_v2(&store, &base))));
+                res.tags.push(format!("migrate:{}", match &r { Err(_) => "panic", Ok(Err(_)) => "err", Ok(Ok(())) => "ok" }));
+                if r.is_err() && names.iter().all(|n| classify(n) != Kind::Junk) {
+                    res.failures.push(OracleFailure {
+                        what: format!("migrate_scheme_to_v2 panicked on a directory of lance-shaped names: {names:?}"),
+                        key: Some("migrate_panic".into()),
+                        line: idx,
+                    });
+                }
                 match r {
                     Err(_) => "panic".into(),
                     Ok(Err(_)) => "err".into(),
@@ -817,7 +825,7 @@ impl Prop for C33 {
     }
     fn budget(&self, tier: Tier) -> usize {
         match tier {
-            Tier::Quick => 2500,
+            Tier::Quick => 6000,
             Tier::Thorough => 60_000,
             Tier::Search => 25_000,
         }
@@ -860,6 +868,7 @@ impl Prop for C33 {
                 }
                 _ => man_name(Sch::V2, gen_version(r)),
             };
+            let n = if n.is_empty() { "_EMPTY_".to_string() } else { n };
             l.push(format!("name {n}"));
         }
         for _ in 0..2 {
